@@ -84,8 +84,23 @@ func (b Branch) MedianTimeAndWork(ctx context.Context,
 		height--
 	}
 
-	// Sort by time
-	sort.Sort(list)
+	if count == 3 {
+		// Use the same sorting network as the network's difficulty algorithm. It only differs from
+		// a sort in which of two headers with the same time is selected, but they have different
+		// accumulated work.
+		if list[0].time > list[2].time {
+			list.Swap(0, 2)
+		}
+		if list[0].time > list[1].time {
+			list.Swap(0, 1)
+		}
+		if list[1].time > list[2].time {
+			list.Swap(1, 2)
+		}
+	} else {
+		// Sort by time
+		sort.Sort(list)
+	}
 
 	// Get values from the middle item in the list.
 	result := list[count/2]
